@@ -18,16 +18,18 @@ def run():
     V.replay_dump("C13", dump, res)
     dump.unlink()
     n = 5 if thorough else 4
-    mod4, cfg4 = V.write_model(work, "small", n, SMALL, SMALL[:6] + ["INV.T"], [("T", "F"), ("F", "F")], ["none", "q1"], V.ALL_INVARIANTS)
+    # (8 labels on 5 nodes gave a 13 GB state dump and more than an hour: the thorough tier goes one node deeper over 5 labels)
+    labs = ["MUSS.T", "MUSS.F", "SOLL.T", "KANN.T", "INV.T"] if thorough else SMALL
+    mod4, cfg4 = V.write_model(work, "small", n, labs, (labs if thorough else SMALL[:6] + ["INV.T"]), [("T", "F"), ("F", "F")], ["none", "q1"], V.ALL_INVARIANTS)
     dump4 = work.path("v4.dump")
     t4 = run_tlc(mod4, cfg4, work, dump=dump4, timeout=3000)
-    res.add_tlc(f"Validation: every AHB <= {n} nodes over 8 labels (deeper nesting, several roots, siblings)", t4)
+    res.add_tlc(f"Validation: every AHB <= {n} nodes over {len(labs)} labels (deeper nesting, several roots, siblings)", t4)
     V.replay_dump("C13", dump4, res, stride=(40 if thorough else 10))
     dump4.unlink()
     V.trace_validation(res, work, 2000 if thorough else 250, wide=((17, 31, 32, 33, 50, 63, 64, 65, 100, 129, 257) if thorough else (33, 65, 100)))
     res.coverage["exhaustive"] = True
     res.coverage["rule"] = ("one case = (AHB tree, soll flag): every tree <= 3 nodes with every label (indicator x outcome or INVALID) on every node, "
-                            f"and a seeded 1/{40 if thorough else 10} sample of all trees <= {n} nodes over 8 labels; each is rendered with seeded expressions "
+                            f"and a seeded 1/{40 if thorough else 10} sample of all trees <= {n} nodes over {len(labs)} labels; each is rendered with seeded expressions "
                             "(spellings, packages, hints, several modal marks) and validated with both flag values; the full result list "
                             "(nodes, order, status, FILLED/EMPTY) must equal the documented walk; plus real results for random AHBs of 5-30 nodes decided by TLC "
                             "(ValidationTrace), among them AHBs in which one node has 33 / 65 / 100 (thorough: up to 257) children; every third judged run is preceded, in the same "
